@@ -1,6 +1,289 @@
 import D2V.Model.Lsp
-/-! C42 — editor support (placeholder; replaced below by the real development) -/
+/-!
+  C42 — editor support: the board reported for a position is the innermost board whose block contains it.
+
+  `boardAtPos` is the model of `d2lsp.getBoardPathAtPosition` (compared with the real function at EVERY position of
+  generated texts, valid and broken).  `blocksList` enumerates the board blocks of the same tree and `innermost` picks
+  the deepest one containing the position — the property sentence.  Theorem `board_at_pos_innermost`: on a tree whose
+  ranges are well nested at `p` (children inside their parent, siblings disjoint — what a parser produces) the two
+  agree, for every tree, depth and position.
+  Not covered by the theorem (and a recorded finding): board declarations with dotted keys (`layers.x: {…}`), which
+  the tree abstraction — like the code — sees as a key named `layers` only.
+-/
 namespace D2V.Lsp
-theorem C42_has_iff (r : Rng) (p : Pos) : r.has p = true ↔ (p.before r.s = false ∧ p.before r.e = true) := by
-  simp [Rng.has]
+
+mutual
+/-- ranges are well nested at `p`: a key whose child contains `p` contains `p`; two sibling keys never both contain `p` -/
+def WNList (p : Pos) : List Node → Prop
+  | [] => True
+  | n :: rest => WNNode p n ∧ WNList p rest ∧ (n.r.has p = true → ∀ m ∈ rest, m.r.has p = false)
+def WNNode (p : Pos) : Node → Prop
+  | .mk _ r kids => WNList p kids ∧ ∀ k ∈ kids, k.r.has p = true → r.has p = true
+end
+
+theorem wnB_sound (p : Pos) : ∀ (k : Nat) (ns : List Node), sizeOf ns ≤ k → wnListB p ns = true → WNList p ns := by
+  intro k
+  induction k with
+  | zero =>
+    intro ns hk _
+    cases ns with
+    | nil => simp [WNList]
+    | cons n rest => simp only [List.cons.sizeOf_spec] at hk; omega
+  | succ k ih =>
+    intro ns hk h
+    cases ns with
+    | nil => simp [WNList]
+    | cons n rest =>
+      cases n with
+      | mk name r kids =>
+        have hkids : sizeOf kids ≤ k := by
+          have : sizeOf kids < sizeOf (Node.mk name r kids :: rest) := by
+            simp only [List.cons.sizeOf_spec, Node.mk.sizeOf_spec]; omega
+          omega
+        have hrest : sizeOf rest ≤ k := by
+          have : sizeOf rest < sizeOf (Node.mk name r kids :: rest) := by simp only [List.cons.sizeOf_spec]; omega
+          omega
+        simp only [wnListB, wnNodeB, Bool.and_eq_true, Bool.or_eq_true, Bool.not_eq_true', List.all_eq_true] at h
+        obtain ⟨⟨⟨hk1, hk2⟩, hr⟩, hd⟩ := h
+        simp only [WNList, WNNode]
+        refine ⟨⟨ih kids hkids hk1, ?_⟩, ih rest hrest hr, ?_⟩
+        · intro c hc hcp
+          rcases hk2 c hc with h1 | h1
+          · rw [h1] at hcp; cases hcp
+          · exact h1
+        · intro hp m hm
+          rcases hd with h1 | h1
+          · simp only [Node.r] at hp h1; rw [h1] at hp; cases hp
+          · exact h1 m hm
+
+theorem innermost_none {bs : List Block} {p : Pos} (h : ∀ b ∈ bs, b.r.has p = false) : innermost bs p = none := by
+  induction bs with
+  | nil => rfl
+  | cons b r ih =>
+    have hb := h b (List.mem_cons_self ..)
+    have hr := ih (fun c hc => h c (List.mem_cons_of_mem _ hc))
+    simp [innermost, hr, hb]
+
+theorem innermost_mem {bs : List Block} {p : Pos} {q : List String} (h : innermost bs p = some q) :
+    ∃ b ∈ bs, b.path = q ∧ b.r.has p = true := by
+  induction bs generalizing q with
+  | nil => simp [innermost] at h
+  | cons b r ih =>
+    simp only [innermost] at h
+    cases hr : innermost r p with
+    | none =>
+      rw [hr] at h
+      by_cases hb : b.r.has p = true
+      · simp [hb] at h
+        exact ⟨b, List.mem_cons_self .., h, hb⟩
+      · simp [hb] at h
+    | some q' =>
+      rw [hr] at h
+      by_cases hc : (b.r.has p && decide (q'.length < b.path.length)) = true
+      · simp only [hc, if_true, Option.some.injEq] at h
+        simp only [Bool.and_eq_true] at hc
+        exact ⟨b, List.mem_cons_self .., h, hc.1⟩
+      · simp only [hc] at h
+        have h' : q' = q := by simpa using h
+        rcases ih (q := q') hr with ⟨c, hc', hp, hh⟩
+        exact ⟨c, List.mem_cons_of_mem _ hc', h' ▸ hp, hh⟩
+
+theorem innermost_append_left_none {A B : List Block} {p : Pos} (h : ∀ b ∈ A, b.r.has p = false) :
+    innermost (A ++ B) p = innermost B p := by
+  induction A with
+  | nil => rfl
+  | cons a r ih =>
+    have ha := h a (List.mem_cons_self ..)
+    have := ih (fun c hc => h c (List.mem_cons_of_mem _ hc))
+    simp only [List.cons_append, innermost, this, ha]
+    cases innermost B p <;> simp
+
+theorem innermost_append_right_none {A B : List Block} {p : Pos} (h : ∀ b ∈ B, b.r.has p = false) :
+    innermost (A ++ B) p = innermost A p := by
+  induction A with
+  | nil => rw [List.nil_append, innermost_none h]; rfl
+  | cons a r ih => simp only [List.cons_append, innermost, ih]
+
+theorem sizeOf_kids_lt (name : String) (r : Rng) (kids rest : List Node) :
+    sizeOf kids < sizeOf (Node.mk name r kids :: rest) := by
+  simp only [List.cons.sizeOf_spec, Node.mk.sizeOf_spec]; omega
+
+theorem sizeOf_rest_lt (n : Node) (rest : List Node) : sizeOf rest < sizeOf (n :: rest) := by
+  simp only [List.cons.sizeOf_spec]; omega
+
+/-- the three facts proved together by induction on the size of the tree -/
+theorem main (p : Pos) : ∀ (k : Nat) (ns : List Node) (cur : List String), sizeOf ns ≤ k → WNList p ns →
+    (∀ b ∈ blocksList ns cur, cur.length < b.path.length) ∧
+    (∀ b ∈ blocksList ns cur, b.r.has p = true → ∃ n ∈ ns, n.r.has p = true) ∧
+    atList ns cur p = innermost (blocksList ns cur) p := by
+  intro k
+  induction k with
+  | zero =>
+    intro ns cur hk _
+    cases ns with
+    | nil => simp [blocksList, atList, innermost]
+    | cons n rest => simp only [List.cons.sizeOf_spec] at hk; omega
+  | succ k ih =>
+    intro ns cur hk hwn
+    cases ns with
+    | nil => simp [blocksList, atList, innermost]
+    | cons n rest =>
+      cases n with
+      | mk name r kids =>
+        have hkids : sizeOf kids ≤ k := by have := sizeOf_kids_lt name r kids rest; omega
+        have hrest : sizeOf rest ≤ k := by have := sizeOf_rest_lt (Node.mk name r kids) rest; omega
+        simp only [WNList, WNNode] at hwn
+        obtain ⟨⟨hwk, hup⟩, hwr, hdis⟩ := hwn
+        obtain ⟨iha, ihb, ihc⟩ := ih kids (cur ++ [name]) hkids hwk
+        obtain ⟨ra, rb, rc⟩ := ih rest cur hrest hwr
+        have hlen : (cur ++ [name]).length = cur.length + 1 := by simp
+        -- blocks below this key lie inside its range
+        have hin : ∀ b ∈ blocksList kids (cur ++ [name]), b.r.has p = true → r.has p = true := by
+          intro b hb hp
+          rcases ihb b hb hp with ⟨m, hm, hmp⟩
+          exact hup m hm hmp
+        by_cases hev : cur.length % 2 = 0
+        · -- even depth: only board keywords count
+          by_cases hkw : isBoardKw name = true
+          · have hbn : blocksNode (Node.mk name r kids) cur = blocksList kids (cur ++ [name]) := by
+              simp [blocksNode, hev, hkw]
+            refine ⟨?_, ?_, ?_⟩
+            · intro b hb
+              simp only [blocksList, hbn, List.mem_append] at hb
+              rcases hb with hb | hb
+              · have := iha b hb; omega
+              · exact ra b hb
+            · intro b hb hp
+              simp only [blocksList, hbn, List.mem_append] at hb
+              rcases hb with hb | hb
+              · exact ⟨_, List.mem_cons_self .., hin b hb hp⟩
+              · rcases rb b hb hp with ⟨m, hm, hmp⟩
+                exact ⟨m, List.mem_cons_of_mem _ hm, hmp⟩
+            · simp only [atList, atNode, blocksList, hbn]
+              by_cases hr : r.has p = true
+              · -- inside this container: the answer is decided here
+                have hrestnone : ∀ b ∈ blocksList rest cur, b.r.has p = false := by
+                  intro b hb
+                  cases hbp : b.r.has p with
+                  | false => rfl
+                  | true =>
+                    rcases rb b hb hbp with ⟨m, hm, hmp⟩
+                    rw [hdis hr m hm] at hmp; cases hmp
+                rw [innermost_append_right_none hrestnone, ← ihc]
+                have hodd : (cur.length + 1) % 2 = 1 := by omega
+                cases hd : atList kids (cur ++ [name]) p with
+                | none => simp [hev, hkw, hr, hd, hodd]
+                | some d => simp [hev, hkw, hr, hd]
+              · have hnone : ∀ b ∈ blocksList kids (cur ++ [name]), b.r.has p = false := by
+                  intro b hb
+                  cases hbp : b.r.has p with
+                  | false => rfl
+                  | true => exact absurd (hin b hb hbp) hr
+                rw [innermost_append_left_none hnone, ← rc]
+                simp [hev, hkw, hr]
+          · have hbn : blocksNode (Node.mk name r kids) cur = [] := by simp [blocksNode, hev, hkw]
+            refine ⟨?_, ?_, ?_⟩
+            · intro b hb
+              simp only [blocksList, hbn, List.nil_append] at hb
+              exact ra b hb
+            · intro b hb hp
+              simp only [blocksList, hbn, List.nil_append] at hb
+              rcases rb b hb hp with ⟨m, hm, hmp⟩
+              exact ⟨m, List.mem_cons_of_mem _ hm, hmp⟩
+            · simp only [atList, atNode, blocksList, hbn, List.nil_append, ← rc]
+              simp [hev, hkw]
+        · -- odd depth: every map-valued key is a board
+          have hodd : cur.length % 2 = 1 := by omega
+          have hbn : blocksNode (Node.mk name r kids) cur = ⟨cur ++ [name], r⟩ :: blocksList kids (cur ++ [name]) := by
+            simp [blocksNode, hodd]
+          refine ⟨?_, ?_, ?_⟩
+          · intro b hb
+            simp only [blocksList, hbn, List.mem_append, List.mem_cons] at hb
+            rcases hb with (rfl | hb) | hb
+            · simp
+            · have := iha b hb; omega
+            · exact ra b hb
+          · intro b hb hp
+            simp only [blocksList, hbn, List.mem_append, List.mem_cons] at hb
+            rcases hb with (rfl | hb) | hb
+            · exact ⟨_, List.mem_cons_self .., hp⟩
+            · exact ⟨_, List.mem_cons_self .., hin b hb hp⟩
+            · rcases rb b hb hp with ⟨m, hm, hmp⟩
+              exact ⟨m, List.mem_cons_of_mem _ hm, hmp⟩
+          · simp only [atList, atNode, blocksList, hbn]
+            by_cases hr : r.has p = true
+            · have hrestnone : ∀ b ∈ blocksList rest cur, b.r.has p = false := by
+                intro b hb
+                cases hbp : b.r.has p with
+                | false => rfl
+                | true =>
+                  rcases rb b hb hbp with ⟨m, hm, hmp⟩
+                  rw [hdis hr m hm] at hmp; cases hmp
+              rw [innermost_append_right_none hrestnone]
+              have heven' : (cur.length + 1) % 2 ≠ 1 := by omega
+              simp only [innermost, ← ihc]
+              cases hd : atList kids (cur ++ [name]) p with
+              | none => simp [hodd, hr, hd, heven']
+              | some d =>
+                -- the deeper answer is a longer path, so it wins
+                have hdm : innermost (blocksList kids (cur ++ [name])) p = some d := by rw [← ihc]; exact hd
+                rcases innermost_mem hdm with ⟨b, hb, hpath, _⟩
+                have hl := iha b hb
+                have hnl : ¬ (d.length < cur.length + 1) := by rw [← hpath]; omega
+                simp only [hodd, hr, hd]
+                simp
+                intro h
+                exact absurd h hnl
+            · have hnone : ∀ b ∈ (⟨cur ++ [name], r⟩ :: blocksList kids (cur ++ [name]) : List Block), b.r.has p = false := by
+                intro b hb
+                rcases List.mem_cons.mp hb with rfl | hb
+                · simpa using hr
+                · cases hbp : b.r.has p with
+                  | false => rfl
+                  | true => exact absurd (hin b hb hbp) hr
+              rw [innermost_append_left_none hnone, ← rc]
+              simp [hodd, hr]
+
+/-- **C42, board position**: on a tree that is well nested at `p`, `GetBoardAtPosition`'s algorithm answers the
+    innermost board block containing `p` (Go's nil = no board block contains `p` = the root board). -/
+theorem board_at_pos_innermost (root : Rng) (kids : List Node) (p : Pos) (hwn : WNList p kids)
+    (hroot : ∀ k ∈ kids, k.r.has p = true → root.has p = true) :
+    boardAtPos root kids p = innermostBoard (blocksList kids []) p := by
+  unfold boardAtPos innermostBoard
+  obtain ⟨_, hb, hc⟩ := main p (sizeOf kids) kids [] (Nat.le_refl _) hwn
+  by_cases hr : root.has p = true
+  · simp [hr, hc]
+  · simp only [hr]
+    have : ∀ b ∈ blocksList kids [], b.r.has p = false := by
+      intro b hbm
+      cases hbp : b.r.has p with
+      | false => rfl
+      | true =>
+        rcases hb b hbm hbp with ⟨m, hm, hmp⟩
+        exact absurd (hroot m hm hmp) hr
+    simp [innermost_none this]
+
+/-! non-vacuity and a witness of the finding -/
+
+def exTree : List Node :=
+  [.mk "a" ⟨⟨0, 3⟩, ⟨2, 1⟩⟩ [],
+   .mk "layers" ⟨⟨3, 8⟩, ⟨12, 1⟩⟩
+     [.mk "x" ⟨⟨4, 5⟩, ⟨11, 3⟩⟩
+        [.mk "b" ⟨⟨5, 7⟩, ⟨6, 5⟩⟩ [],
+         .mk "scenarios" ⟨⟨7, 15⟩, ⟨10, 5⟩⟩ [.mk "s" ⟨⟨8, 9⟩, ⟨9, 7⟩⟩ []]]]]
+
+example : boardAtPos ⟨⟨0, 0⟩, ⟨13, 0⟩⟩ exTree ⟨8, 12⟩ = some ["layers", "x", "scenarios", "s"] := by decide
+example : boardAtPos ⟨⟨0, 0⟩, ⟨13, 0⟩⟩ exTree ⟨7, 20⟩ = some ["layers", "x"] := by decide
+example : boardAtPos ⟨⟨0, 0⟩, ⟨13, 0⟩⟩ exTree ⟨3, 9⟩ = none := by decide
+example : boardAtPos ⟨⟨0, 0⟩, ⟨13, 0⟩⟩ exTree ⟨5, 8⟩ = some ["layers", "x"] := by decide
+example : innermostBoard (blocksList exTree []) ⟨8, 12⟩ = some ["layers", "x", "scenarios", "s"] := by decide
+
+/-- finding C42-dotted-board-declaration-not-recognised on its witness: `layers.dl1: {` … `}` is seen by the code as a
+    key `layers` whose map is the container, so a position inside the block gets nil although the compiler's board
+    `layers.dl1` has exactly that block -/
+theorem C42_cx_dotted_board_declaration :
+    boardAtPos ⟨⟨0, 0⟩, ⟨3, 0⟩⟩ [.mk "layers" ⟨⟨0, 12⟩, ⟨2, 1⟩⟩ []] ⟨1, 2⟩ = none ∧
+    innermostBoard [⟨["layers", "dl1"], ⟨⟨0, 12⟩, ⟨2, 1⟩⟩⟩] ⟨1, 2⟩ = some ["layers", "dl1"] := by
+  decide
+
 end D2V.Lsp
